@@ -565,7 +565,7 @@ theorem getByMask_spec (c : CReg) (mask : Nat) (hm : mask &&& c.qMask = mask) (h
 
 section sim
 variable {R : Type} [Add R] [Sub R] [Mul R] [Neg R] [Zero R] [One R] [Div R] [Consts R]
-  [LE R] [DecidableLE R] [HasSqrt R] [RegConsts R] [ExprFns R] [AngleFns R]
+  [LE R] [DecidableLE R] [LT R] [DecidableLT R] [HasSqrt R] [RegConsts R] [ExprFns R] [AngleFns R]
 
 /-- the reference state with the registers and outcome stream of a run state -/
 def Spec.RefState.sync (rs : RefState R) (st : RunSt R) : RefState R :=
